@@ -418,7 +418,7 @@ func genStore(w *lib.Writer, r *lib.Rng, tier string) {
 
 // ---- c11.srv: authenticated requests of any shape sent to the real listener ----
 
-// args: [nCookieFields nPlaceholders placeholderLen uidLen]
+// args: [nCookieFields nPlaceholders placeholderLen uidLen transport(0 IP, 1 SCION)]
 func (e *env) runSrv(args string) (tags, a, outs string) {
 	t := strings.Fields(strings.NewReplacer("[", " ", "]", " ").Replace(args))
 	nc, np, pl, ul := int(lib.ParseI(t[0])), int(lib.ParseI(t[1])), int(lib.ParseI(t[2])), int(lib.ParseI(t[3]))
@@ -466,7 +466,13 @@ func (e *env) runSrv(args string) (tags, a, outs string) {
 	}
 	var o stepObs
 	o.req = req
-	o.replies = e.toServer(req)
+	if len(t) > 4 && t[4] == "1" {
+		o.replies = e.toServerSCION(req)
+		tags += ",scion"
+	} else {
+		o.replies = e.toServer(req)
+		tags += ",ip"
+	}
 	if len(o.replies) > 0 {
 		r := o.replies[0]
 		if pos, nonce, ct, ok := authParts(r); ok {
@@ -503,12 +509,14 @@ func (e *env) runSrv(args string) (tags, a, outs string) {
 }
 
 func genSrv(r *lib.Rng, tier string) (js []job) {
-	n := 300
+	n := 200
 	if tier == "thorough" {
-		n = 3000
+		n = 2000
 	}
 	add := func(nc, np, pl, ul int) {
-		js = append(js, job{"c11.srv", lib.L(lib.I(int64(nc)), lib.I(int64(np)), lib.I(int64(pl)), lib.I(int64(ul)))})
+		for tr := 0; tr <= 1; tr++ {
+			js = append(js, job{"c11.srv", lib.L(lib.I(int64(nc)), lib.I(int64(np)), lib.I(int64(pl)), lib.I(int64(ul)), lib.I(int64(tr)))})
+		}
 	}
 	// what this project's client sends, and more placeholders than fit (short ones)
 	for np := 0; np <= 12; np++ {
